@@ -106,4 +106,33 @@ theorem loop_prefix (null : α) (fields : List String) (d : List (String × α))
     rw [this, hm', ht, List.map_append, List.map_cons, List.map_nil]
 
 
+/-! ## Dictionaries whose keys need not be text -/
+open PyDictM
+
+/-- What `extract_dict_columns` finds for a field name is what `data.get(<that name>)` finds. -/
+theorem lookup_helperView {α : Type} (f : String) (items : List (PyKey × α)) :
+    DictRow.lookup f (helperView items) = lookupId (.text f) items := by
+  induction items with
+  | nil => rfl
+  | cons kv rest ih =>
+    obtain ⟨k, v⟩ := kv
+    cases hk : k.id with
+    | text s =>
+      by_cases hs : s = f
+      · subst hs; simp [helperView, hk, DictRow.lookup, lookupId]
+      · have : ¬ KeyId.text s = KeyId.text f := by intro h; injection h with h; exact hs h
+        simp [helperView, hk, DictRow.lookup, lookupId, hs, ih]
+    | other n =>
+      simp [helperView, hk, lookupId, ih]
+
+/-- The helper's view of a dictionary keyed by text only is that dictionary. -/
+theorem helperView_ofTextItems {α : Type} (d : List (String × α)) : helperView (ofTextItems d) = d := by
+  induction d with
+  | nil => rfl
+  | cons kv rest ih =>
+    obtain ⟨k, v⟩ := kv
+    simp only [ofTextItems, List.map_cons] at ih ⊢
+    simp only [helperView, PyKey.ofStr] at ih ⊢
+    rw [ih]
+
 end CallSites
